@@ -3,6 +3,7 @@
    Model/Filters.v (parser/filter.rs), Model/Ids.v over Gen/IdTables.v (parser/converter.rs, source-derived).
    Tie: correspondence ops `collect`, `filter-wiring`, `ids` (tools/props/c05.py). *)
 From RV Require Import Gen.IdTables.
+From RV Require Import Gen.CollectTables.
 From RV Require Import Model.Tree.
 From RV Require Import Model.Filters.
 From RV Require Import Model.Ids.
@@ -31,6 +32,62 @@ Theorem C05_collect_sound : forall root, coll_sound (with_collections root).
 Proof. exact with_collections_sound. Qed.
 Print Assumptions C05_collect_sound.
 
+(* ---- hidden paths (visibility = hidden / collapse: `NPath i false ..`) stay in the tree with their fill and
+   stroke and the writer emits their url(#id): their gradients and patterns are collected like any other,
+   wherever the path sits (under a group, inside a pattern, a mask, a flattened text ..). *)
+Theorem C05_hidden_path_paints_collected : forall root i fl st p,
+  In (NPath i false fl st) (all_group root) -> In p [fl; st] ->
+  (is_lin p = true -> In (pa_ptr p) (map pa_ptr (t_lins (with_collections root)))) /\
+  (is_rad p = true -> In (pa_ptr p) (map pa_ptr (t_rads (with_collections root)))) /\
+  (is_pat p = true -> In (pa_ptr p) (map pa_ptr (t_pats (with_collections root)))).
+Proof. exact hidden_path_paints_collected. Qed.
+Print Assumptions C05_hidden_path_paints_collected.
+
+(* ---- tie: the `match node` of tree/mod.rs::loop_over_paint_servers, regenerated from the source on every run, has
+   one unguarded arm per node kind, the Path arm pushes fill and stroke, and sub-roots are always entered *)
+Theorem C05_paint_loop_arms_as_modelled :
+  paint_loop_arms =
+  [("Group", "", ArmRec); ("Path", "", ArmPush ["fill"; "stroke"]); ("Image", "", ArmSkip); ("Text", "", ArmSkip)]%string
+  /\ paint_loop_subroots = true.
+Proof. exact paint_loop_arms_as_modelled. Qed.
+Print Assumptions C05_paint_loop_arms_as_modelled.
+
+(* .. and read arm by arm (first matching arm wins, a guarded arm has no reading) that table pushes exactly what the
+   model's `node_paints` pushes, for every node and every paint kind - whatever the node's `visible` flag *)
+Theorem C05_node_paints_is_source_arms : forall sel n, first_arm sel paint_loop_arms n = Some (node_paints sel n).
+Proof. exact node_paints_is_source_arms. Qed.
+Print Assumptions C05_node_paints_is_source_arms.
+
+(* .. and the four collection loops contain no other condition than the Arc::ptr_eq tests and `if let Node::Group` *)
+Theorem C05_collector_guards_as_modelled :
+  collector_guards =
+  [("collect_clip_paths", ["let Node::Group(ref g) = node"; "!clip_paths.iter().any(|other| Arc::ptr_eq(c, other))";
+                           "let Node::Group(ref g) = node"]);
+   ("collect_masks", ["let Node::Group(ref g) = node"; "!masks.iter().any(|other| Arc::ptr_eq(m, other))";
+                      "let Node::Group(ref g) = node"]);
+   ("collect_filters", ["let Node::Group(ref g) = node"; "!filters.iter().any(|other| Arc::ptr_eq(filter, other))";
+                        "let Node::Group(ref g) = node"]);
+   ("collect_paint_servers", ["!self.linear_gradients.iter().any(|other| Arc::ptr_eq(lg, other))";
+                              "!self.radial_gradients.iter().any(|other| Arc::ptr_eq(rg, other))";
+                              "!self.patterns.iter().any(|other| Arc::ptr_eq(patt, other))"]);
+   ("loop_over_paint_servers", ["let Some(paint) = paint"])]%string.
+Proof. exact collector_guards_as_modelled. Qed.
+Print Assumptions C05_collector_guards_as_modelled.
+
+(* non-vacuity: a hidden path under a group, and a hidden path inside a pattern used by a hidden path; the three
+   servers are used by nothing else and all three are collected *)
+Definition hidden_root : group :=
+  G 0 false None None []
+    [NGroup (G 5 false None None [] [NPath 1 false (PLin 11 21) (PRad 12 22)]);
+     NPath 2 false (PPat 13 23 (G 0 false None None [] [NPath 3 false (PLin 14 24) PNone])) PNone;
+     NPath 4 true PColor PNone].
+Example C05_hidden_nonvacuous :
+  In (NPath 3 false (PLin 14 24) PNone) (all_group hidden_root) /\
+  map pa_ptr (t_lins (with_collections hidden_root)) = [11; 14] /\
+  map pa_ptr (t_rads (with_collections hidden_root)) = [12] /\
+  map pa_ptr (t_pats (with_collections hidden_root)) = [13].
+Proof. vm_compute. intuition. Qed.
+
 (* chains are finite by typing: the n-th link of a chain is in the chain that is walked *)
 Theorem C05_chain_walk : forall c c' d, c_next c = Some c' -> In d (clip_chain c') -> In d (clip_chain c).
 Proof. exact clip_chain_next. Qed.
@@ -39,7 +96,7 @@ Print Assumptions C05_chain_walk.
 (* ---- text spans keep their own paints; those are NOT collected (loop_over_paint_servers skips Node::Text
    "flattened text would be used instead"), DESIGN section 5 F27: refuted, class `text-span-paint` *)
 Definition f27_root : group :=
-  G 0 false None None [] [NText 0 (G 0 false None None [] [NPath 0 (PLin 8 2) PNone]) [CH None [PP (PLin 7 1) PNone]]].
+  G 0 false None None [] [NText 0 (G 0 false None None [] [NPath 0 true (PLin 8 2) PNone]) [CH None [PP (PLin 7 1) PNone]]].
 Theorem C05_span_paints_collected_refuted :
   exists root p, In p (reach_span_paints root) /\
     ~ In (pa_ptr p) (map pa_ptr (t_lins (with_collections root))).
@@ -192,11 +249,11 @@ Print Assumptions C05_node_by_id_unique.
 
 (* ---- non-vacuity *)
 (* the F8 witness shape: chains a -> b -> c of clip paths and of masks; all three links are collected *)
-Definition leaf : group := G 0 false None None [] [NPath 0 PColor PNone].
+Definition leaf : group := G 0 false None None [] [NPath 0 true PColor PNone].
 Definition f08_root : group :=
   G 0 false None None []
-    [NGroup (G 0 false (Some (CD 1 11 (Some (CD 2 12 (Some (CD 3 13 None leaf)) leaf)) leaf)) None [] [NPath 0 PColor PNone]);
-     NGroup (G 0 false None (Some (MD 4 14 (Some (MD 5 15 (Some (MD 6 16 None leaf)) leaf)) leaf)) [] [NPath 0 PColor PNone])].
+    [NGroup (G 0 false (Some (CD 1 11 (Some (CD 2 12 (Some (CD 3 13 None leaf)) leaf)) leaf)) None [] [NPath 0 true PColor PNone]);
+     NGroup (G 0 false None (Some (MD 4 14 (Some (MD 5 15 (Some (MD 6 16 None leaf)) leaf)) leaf)) [] [NPath 0 true PColor PNone])].
 Example C05_nv_chain :
   map c_ptr (t_clips (with_collections f08_root)) = [1; 2; 3] /\
   map m_ptr (t_masks (with_collections f08_root)) = [4; 5; 6].
@@ -208,7 +265,7 @@ Definition deep_root : group :=
     [NGroup (G 0 false None None
        [FD 9 19 [PR 9 0 1 [] (Some (G 0 false None None []
           [NGroup (G 0 false None (Some (MD 8 18 None (G 0 false None None []
-             [NPath 0 (PPat 7 17 (G 0 false None None [] [NGroup (G 0 false (Some (CD 1 11 None leaf)) None [] [])])) PNone]))) [] [])]))]] [])].
+             [NPath 0 true (PPat 7 17 (G 0 false None None [] [NGroup (G 0 false (Some (CD 1 11 None leaf)) None [] [])])) PNone]))) [] [])]))]] [])].
 Example C05_nv_deep : map c_ptr (t_clips (with_collections deep_root)) = [1] /\
                       map pa_ptr (t_pats (with_collections deep_root)) = [7].
 Proof. vm_compute. split; reflexivity. Qed.
